@@ -233,6 +233,14 @@ def _progress(outdir):
     return started, done, hang
 
 
+def xpark_mode(xpark):
+    """SCHED_XPARK of harness/sched: "0" comparison run (W and X labels transparent), "w" exhibit run (W labels park, X transparent),
+    "1" W and X labels park."""
+    if xpark in ("0", "w", "1"):
+        return xpark
+    return "1" if xpark else "0"
+
+
 def run_schedules(ctx, b, sched_file, name="run", procs=8, timeout=300, watchdog_ms=2000, xpark=True, max_failures_per_job=3):
     """Executes every schedule of sched_file on the real code. -> dict(dirs, failures=[dict(sid, kind=hang|fatal, k, text)])"""
     blocks = split_blocks(Path(sched_file).read_text())
@@ -261,7 +269,7 @@ def run_schedules(ctx, b, sched_file, name="run", procs=8, timeout=300, watchdog
         for j in pending:
             env = dict(os.environ)
             env.update({"SCHED_IN": str(j["dir"] / "in.txt"), "SCHED_OUT": str(j["dir"]), "SCHED_SKIP": str(j["skip"]),
-                        "SCHED_WATCHDOG_MS": str(watchdog_ms), "SCHED_XPARK": "1" if xpark else "0"})
+                        "SCHED_WATCHDOG_MS": str(watchdog_ms), "SCHED_XPARK": xpark_mode(xpark)})
             p = subprocess.Popen([str(b["test_bin"]), "-test.run", "TestSched", "-test.timeout", "%ds" % timeout], cwd=j["dir"], env=env,
                                  stdout=subprocess.PIPE, stderr=subprocess.STDOUT, text=True, errors="replace")
             running.append((p, j))
@@ -865,7 +873,8 @@ def _replay_obj(prop, run, why, chk, extra=None):
             g[3], g[4] = unhx(g[3]), unhx(g[4])
         items.append(" ".join(g))
     obj = {"kind": "t2-schedule", "property": prop, "id": run.sid, "minidle": run.minidle, "shards": run.shards,
-           "exhibit": bool(run.exhibit), "exhibit_of": run.exhibit, "items": items, "why": why,
+           "exhibit": bool(run.exhibit), "xpark": ("1" if run.sid.startswith("x:") else "w") if run.exhibit else "0",
+           "exhibit_of": run.exhibit, "items": items, "why": why,
            "observed": run.raw[:400], "model_vs_real": (chk or {}).get("diffs", [])[:10], "ghost": (chk or {}).get("ghost", [])[:60],
            "replay_cmd": "python3 -m lib.schedtie --replay <this file> --prop %s" % prop}
     if extra:
@@ -967,7 +976,7 @@ def run_property(ctx, prop, scenarios=None, tier=None, procs=8):
     if xl:
         xf = b["work"] / ("exhibit-%s.txt" % prop)
         xf.write_text("".join(exhibit_text(x) for x in xl))
-        e2 = execute(ctx, b, xf, "xrun-%s" % prop, procs=procs, timeout=300 if tier == "quick" else 3000, xpark=True)
+        e2 = execute(ctx, b, xf, "xrun-%s" % prop, procs=procs, timeout=300 if tier == "quick" else 3000, xpark="w")
         xruns, xchk, xfail = e2["runs"], e2["chk"], e2["failures"]
         meta = {x["id"]: x for x in xl}
         for sid, r in xruns.items():
@@ -993,7 +1002,8 @@ def run_property(ctx, prop, scenarios=None, tier=None, procs=8):
     j["mismatches"] += x_mism
     runs.update(xruns); chk.update(xchk); failures += xfail
     tie["exhibit"] = {
-        "runs": len(xruns), "window_yield_points_placed": ins.get("windows", []), "gc_yield_points_placed": ins.get("multi", {}),
+        "runs": len(xruns), "window_exhibit_runs": sum(1 for k in xruns if not k.startswith("x:")),
+        "shape_sentinel_reruns": sum(1 for k in xruns if k.startswith("x:")), "window_yield_points_placed": ins.get("windows", []), "gc_yield_points_placed": ins.get("multi", {}),
         "window_passages_seen_in_comparison_runs": xstats["window_passages_seen"], "insertion_candidates": xstats["candidates"],
         "inserted_by_window_and_kind": xstats["inserted"], "gc_overrun_base_schedules": xstats["gc_overrun_base_schedules"],
         "gc_overrun_variants": xstats["gc_overrun_variants"],
@@ -1066,6 +1076,10 @@ def run_property(ctx, prop, scenarios=None, tier=None, procs=8):
     if runs and len(ctx.coverage["samples"]) < 3:
         sid = sorted(runs)[0]
         ctx.coverage["samples"].append({"schedule": sid, "observed_head": runs[sid].raw[:30]})
+    xs = sorted(k for k in xruns if not k.startswith("x:"))
+    if xs and not any(isinstance(x, dict) and "exhibit_schedule" in x for x in ctx.coverage["samples"]):
+        r_ = xruns[xs[len(xs) // 2]]
+        ctx.coverage["samples"].append({"exhibit_schedule": r_.sid, "exhibit_of": r_.exhibit, "items": [" ".join(f) for _k, f in r_.items][:60]})
     return dict(ok_build=True, runs=runs, chk=chk, judged=j, failures=failures, stats=gstats, reached=reached, instr=ins)
 
 
@@ -1081,7 +1095,7 @@ def replay(ctx, prop, path):
     c.setdefault("id", "replay")
     cf = b["work"] / "replay.txt"
     cf.write_text(corpus_text(c))
-    e = execute(ctx, b, cf, "replay", procs=1, xpark=bool(c.get("exhibit", True)))
+    e = execute(ctx, b, cf, "replay", procs=1, xpark=c.get("xpark", "1"))
     j = judge(prop, e["runs"], e["chk"], e["failures"], compare=True)
     for r in e["runs"].values():
         print("\n".join(r.raw))
@@ -1123,7 +1137,7 @@ def main(argv=None):
         cf = b["work"] / "replay.txt"
         c.setdefault("id", "replay")
         cf.write_text(corpus_text(c))
-        e = execute(ctx, b, cf, "replay", procs=1, xpark=bool(c.get("exhibit", True)))
+        e = execute(ctx, b, cf, "replay", procs=1, xpark=c.get("xpark", "1"))
         for p in props:
             j = judge(p, e["runs"], e["chk"], e["failures"])
             print(p, json.dumps(j, indent=1))
